@@ -20,7 +20,7 @@ for P in $PROPS; do
     i=0
     for GMP in 1 4 16 1 4 16 1 4 16 16; do
       i=$((i+1))
-      ( cd "$SCR" && GOMAXPROCS=$GMP PEGSIM_KNOWN=$VERIF/known_findings.json PEGSIM_ONESEED=$((SEED*1000+7)) PEGSIM_PROP=$P PEGSIM_TIER=quick PEGSIM_SEED=1 PEGSIM_BUDGET_S=100000 \
+      ( cd "$SCR" && GOMAXPROCS=$GMP PEGSIM_KNOWN=$VERIF/known_findings.json PEGSIM_ONESEED=$((SEED*1000+7)) PEGSIM_PROP=$P PEGSIM_TIER=quick PEGSIM_SEED=1 PEGSIM_BUDGET_S=100000 PEGSIM_C02_MAXIMAGES=40 \
           PEGSIM_OUT="$SCR/st-$P-$SEED-$i.json" PEGSIM_REPLAYDIR="$SCR/replays" ./pegsim.test -test.run '^TestWorker$' -test.timeout 0 > /dev/null 2>&1 ) &
     done
     wait
